@@ -213,6 +213,7 @@ int mode_run(int argc, char** argv) {
   if (!progress.empty()) pfd = open(progress.c_str(), O_CREAT | O_WRONLY | O_TRUNC, 0644);
   Expander ex{eng};
   const uint64_t S = eng->schedules_per_program();
+  FILE* hashes = getenv("SIM_RUN_HASHES") ? fopen(getenv("SIM_RUN_HASHES"), "w") : nullptr;
   std::unordered_set<uint64_t> distinct;
   uint64_t nontrivial = 0, known_hits = 0;
   int samples = 0;
@@ -242,6 +243,7 @@ int mode_run(int argc, char** argv) {
       }
     }
     done++;
+    if (hashes) fprintf(hashes, "%llu %llu\n", static_cast<unsigned long long>(s), static_cast<unsigned long long>(r.hash));
     if (r.nontrivial) { nontrivial++; distinct.insert(r.hash); }
     if (r.known) known_hits++;
     if (!r.ok) {
@@ -267,6 +269,7 @@ int mode_run(int argc, char** argv) {
       emit("STATS", stats_json(now_s() - t0, nontrivial, distinct.size(), known_hits));
     }
   }
+  if (hashes) fclose(hashes);
   emit("STATS", stats_json(now_s() - t0, nontrivial, distinct.size(), known_hits));
   printf("DONE %llu\n", static_cast<unsigned long long>(done));
   fflush(stdout);
